@@ -173,6 +173,12 @@ CalleeCells == {[q[1] EXCEPT !.v = q[2]] :
                     q \in {p \in {r \in Reduced : r.ctx \in {"arg", "arg2", "argn"}} \X CalleeKinds :
                                p[2] = "extern" => (p[1].ctx = "argn" \/ p[1].b \in {I32, U8, PTR})}}
 
+\* (tenth round of seeded changes) array VIEWS handed to an extern function, whose `[]T` is a view of an endless array: "what
+\* fits `[]T` of an ordinary function fits these too" -- and nothing else does: the element types are compared.  Sources: a view
+\* parameter passed on, a local array; callee: extern or an ordinary head.
+ExternViewCells == {[Cell("arg", "", s, 0, d, 0) EXCEPT !.v = q] :
+                       s \in {SLICE, Slice(U8), ARR, Arr("3", U8)}, d \in {SLICE, Slice(U8)}, q \in {"extern", ""}}
+
 \* --- words of every size (features.md: word8 .. word128) as operands, values, by-value parameters ---
 W8 == <<"word", "W8">>   W16 == <<"word", "W16">>   W64 == <<"word", "W2">>   W128 == <<"word", "W128">>
 Words == {W8, W16, WORD, W64, W128}
@@ -252,7 +258,7 @@ FormCtxCells ==
         q \in {p \in {r \in FormCells : r.ctx = "bin" /\ r.fa \in {"var", "lit", "call", "const"} /\ r.fb \in {"var", "lit", "call", "const"}}
                        \X {"castop", "castsame", "paren", "binop", "arg"} : XOK(p[2], TypeInContext(p[1]))}}
 
-AuditCells == FormCtxCells \cup FormCells \cup PreCells \cup PosCells \cup CalleeCells \cup WordCells \cup LenCells \cup ShapeCells \cup VoidCells
+AuditCells == ExternViewCells \cup FormCtxCells \cup FormCells \cup PreCells \cup PosCells \cup CalleeCells \cup WordCells \cup LenCells \cup ShapeCells \cup VoidCells
                   \cup BigLenCells \cup NameCells \cup FlagCells \cup PoisonCells
 
 (***************************************************************************)
@@ -293,7 +299,7 @@ Parts == <<
     {cl \in FormCells : cl.fb # "var"},
     FormCtxCells,
     PreCells,
-    PosCells \cup CalleeCells \cup VoidCells,
+    PosCells \cup CalleeCells \cup VoidCells \cup ExternViewCells,
     WordCells,
     LenCells \cup ShapeCells \cup BigLenCells \cup NameCells \cup PoisonCells,
     FlagCells
